@@ -14,7 +14,13 @@ Request: `run <init> <progs> <subs> <sched>`
          k-th publication in flight (commit order), `s<i>` subscribe, `x<i>` cancel, `r<i>` consumer i takes one
          event, `R` every consumer drains its stage
 
+         a subscriber may carry a 4th letter: its include function `n|a|b|c|d` (see `parseIncl?`)
 Answer: `store=…|S0=<live|gone|unreg>:<view>:<events>|…|pubs=<in flight>|lock=<0|1>|ord=<0|1>`
+(view and events are what the consumer RECEIVES: after include and read mask)
+
+Decision tables (K2): `fwd <incl> <mask> <id> <old|-> <new|->` — one change through the forwarder: `drop` or
+`<A|U|R>:<old>:<new>`; `merge <A|U|P|R>/<old|->/<new|-> <A|U|P|R>/<old|->/<new|->` — the merge stage holding the first
+change receives the second (same id): `cancel` or `<A|U|R>:<old>:<new>`.
 -/
 namespace ScVerif.C03
 open ScVerif.Line
@@ -77,13 +83,29 @@ def parseMask? (c : Char) : Option (V → V) :=
   else if c = 'b' then some id
   else none
 
+/-- the closed family of include functions shared with the harness: `n` none, `a` first field even, `b` second
+field even, `c` first field ≥ 5, `d` the id is even and the second field is < 5 -/
+def parseIncl? (c : Char) : Option (Option (Nat → V → Bool)) :=
+  if c = 'n' then some none
+  else if c = 'a' then some (some (fun _ v => v.1 % 2 == 0))
+  else if c = 'b' then some (some (fun _ v => v.2 % 2 == 0))
+  else if c = 'c' then some (some (fun _ v => decide (v.1 ≥ 5)))
+  else if c = 'd' then some (some (fun i v => i % 2 == 0 && decide (v.2 < 5)))
+  else none
+
 def parseSub? (s : String) : Option (SubOpts V) :=
   match s.toList with
   | [u, l, m] => do
     let u ← (if u = '1' then some true else if u = '0' then some false else none)
     let l ← (if l = '1' then some true else if l = '0' then some false else none)
     let m ← parseMask? m
-    pure ⟨u, l, m⟩
+    pure ⟨u, l, m, none⟩
+  | [u, l, m, f] => do
+    let u ← (if u = '1' then some true else if u = '0' then some false else none)
+    let l ← (if l = '1' then some true else if l = '0' then some false else none)
+    let m ← parseMask? m
+    let f ← parseIncl? f
+    pure ⟨u, l, m, f⟩
   | _ => none
 
 def parseSubs? (s : String) : Option (List (SubOpts V)) :=
@@ -123,18 +145,61 @@ def showEv (m : V → V) (e : Event V) : String :=
   | some v => s!"{e.id}={showVal (m v)}"
   | none => s!"{e.id}=nil"
 
+def parseOptVal? (s : String) : Option (Option V) :=
+  if s = "-" then some none else (parseVal? s).map some
+
+def showOptVal : Option V → String
+  | none => "-"
+  | some v => showVal v
+
+def showChange (e : Event V) : String :=
+  let ty := if e.isAdd then "A" else if e.new.isNone then "R" else "U"
+  s!"{ty}:{showOptVal e.old}:{showOptVal e.new}"
+
+def parseChange? (s : String) : Option (Event V) :=
+  match s.splitOn "/" with
+  | [ty, o, n] => do
+    let o ← parseOptVal? o
+    let n ← parseOptVal? n
+    if ty = "A" || ty = "U" || ty = "P" || ty = "R" then pure ⟨0, o, n, ty = "A", 0⟩ else none
+  | _ => none
+
+def handleTable (toks : List String) : Option String :=
+  match toks with
+  | ["fwd", incl, mask, id, o, n] => do
+    let incl ← (match incl.toList with | [c] => parseIncl? c | _ => none)
+    let mask ← (match mask.toList with | [c] => parseMask? c | _ => none)
+    let id ← parseNat? id
+    let o ← parseOptVal? o
+    let n ← parseOptVal? n
+    if o.isNone && n.isNone then none else
+    match fwdEv incl mask ⟨id, o, n, o.isNone, 0⟩ with
+    | none => pure "drop"
+    | some e => pure (showChange e)
+  | ["merge", a, b] => do
+    let a ← parseChange? a
+    let b ← parseChange? b
+    match mergeInto [a] b with
+    | [] => pure "cancel"
+    | [e] => pure (showChange e)
+    | _ => none
+  | _ => none
+
 def handle (toks : List String) : String :=
+  match handleTable toks with
+  | some r => r
+  | none =>
   match toks with
   | ["run", init, progs, subs, sched] =>
     match parseInit? init, (progs.splitOn "|").mapM parseProg?, parseSubs? subs, parseSched? sched with
     | some init, some progs, some subs, some sched =>
       let s₀ : Nat → Option V := fun i => (init.find? (fun kv => kv.1 == i)).map (·.2)
-      let c₀ : Cfg V := initCfg s₀ (fun t => progs.getD t []) (fun s => subs.getD s ⟨false, false, id⟩)
+      let c₀ : Cfg V := initCfg s₀ (fun t => progs.getD t []) (fun s => subs.getD s ⟨false, false, id, none⟩)
       let (c, acts) := expand subs.length c₀ sched []
       let ss := (List.range subs.length).map (fun s =>
         let sb := c.subs s
         let st := if sb.cancelled then "gone" else if sb.registered then "live" else "unreg"
-        s!"S{s}={st}:{showView sb.view}:" ++ ";".intercalate (sb.evs.map (showEv sb.mask)))
+        s!"S{s}={st}:{showView sb.obsView}:" ++ ";".intercalate (sb.obs.map (showEv id)))
       s!"store={showView c.store}|" ++ "|".intercalate ss ++
         s!"|pubs={c.pubs.length}|lock={if c.lock.isSome then 1 else 0}|ord={if ordered c₀ acts then 1 else 0}"
     | _, _, _, _ => "!bad-op"
